@@ -213,6 +213,30 @@ func runC20(t *testing.T, c CfgCase) *kit.Result {
 					return
 				}
 				evals++
+				// an open that fails for a reason that has nothing to do with the
+				// configuration (the disk refuses to create, write, sync or read
+				// for a moment) leaves the stored configuration alone
+				if (c.PSeed>>3)%3 == 0 && round < c.Reopens {
+					nd := fs.Node("n1")
+					kind := []int{simos.OpCreate, simos.OpWrite, simos.OpSync, simos.OpRead}[int(c.PSeed>>5)%4]
+					nd.ErrRate[kind] = 1
+					e2, err := engine.NewEngineFacade(dir)
+					nd.ErrRate[kind] = 0
+					if err == nil {
+						e2.Close()
+					} else {
+						res.Fault("failed_open_"+simos.OpNames[kind], 1)
+					}
+					got, lerr := config.LoadConfigFromManifest(dir)
+					if lerr != nil {
+						fail(&kit.Violation{Kind: "config-roundtrip", Signature: "stored-config-gone-after-failed-open", Detail: fmt.Sprintf("an open attempt during which every %s was refused ended with %v; afterwards the stored configuration does not load: %v", simos.OpNames[kind], err, lerr)})
+						return
+					}
+					if d := cfgEqual(want, got); d != "" {
+						fail(&kit.Violation{Kind: "config-changed", Signature: "config-changed-by-failed-open", Detail: fmt.Sprintf("after an open attempt during which every %s was refused (%v): %s", simos.OpNames[kind], err, d)})
+						return
+					}
+				}
 			}
 		})
 		simrt.KillTagged("n1", fs.Node("n1").Gen)
@@ -400,6 +424,6 @@ func TestC20(t *testing.T) {
 			return out
 		},
 		Strip: func(c CfgCase) any { d := c; d.Sched = kit.Sched{}; return d },
-		Rule:  "generated configurations (0-3 numeric fields set around their validity boundaries, occasionally an empty or relocated directory): an invalid one must be rejected by SaveManifest with the node's disk image byte-identical before and after (pure validation; plain input generation); a valid one must load back identical, then - simulation proper - the process is killed before and after every I/O point of the manifest's creation and the database reopened; a database that took writes is reopened 1-4 times (in a quarter of the cases also one created and reopened through a relative path) and must keep configuration, manifest bytes and configured directories; finally the stored manifest is truncated at every byte offset corrupted at 60 sampled bytes and extended by 6 kinds of trailing bytes over the existing data: if the damaged content is unreadable or invalid, NewEngineFacade must fail. evaluations = images opened; non-trivial = every completed case",
+		Rule:  "generated configurations (0-3 numeric fields set around their validity boundaries, occasionally an empty or relocated directory): an invalid one must be rejected by SaveManifest with the node's disk image byte-identical before and after (pure validation; plain input generation); a valid one must load back identical, then - simulation proper - the process is killed before and after every I/O point of the manifest's creation and the database reopened; a database that took writes is reopened 1-4 times (in a quarter of the cases also one created and reopened through a relative path) and must keep configuration, manifest bytes and configured directories, also across open attempts during which the disk refuses every create, write, sync or read (a third of the cases); finally the stored manifest is truncated at every byte offset corrupted at 60 sampled bytes and extended by 6 kinds of trailing bytes over the existing data: if the damaged content is unreadable or invalid, NewEngineFacade must fail. evaluations = images opened; non-trivial = every completed case",
 	})
 }
